@@ -152,9 +152,11 @@ fn sketch_json(num: u32, ksize: u32, seed: u64, max_hash: u64, m: &str, track: b
 }
 
 /// a sketch that is NOT made by `new` + insertions: the public builders (`b`: content handed over,
-/// the tree's `current_max` left at its default; `bc`: the tree's `current_max` given too) or
-/// `Deserialize` of a JSON document (`js`, hashes in the order given)
-fn build_reg(tree: bool, ctor: &str, max_hash: u64, num: u32, ksize: u32, m: &str, seed: u64, track: bool, items: &[(u64, u64)]) -> Option<Reg> {
+/// the tree's `current_max` left to the builder's default, which derives it from `mins`; `bc`: the
+/// tree's `current_max` given explicitly - `cm`, or the largest hash when `cm` is `None`; an explicit
+/// value is taken as it is, so it may be stale) or `Deserialize` of a JSON document (`js`, hashes in
+/// the order given)
+fn build_reg(tree: bool, ctor: &str, max_hash: u64, num: u32, ksize: u32, m: &str, seed: u64, track: bool, items: &[(u64, u64)], cm: Option<u64>) -> Option<Reg> {
     Some(match (ctor, tree) {
         ("js", false) => Reg::V(serde_json::from_str(&sketch_json(num, ksize, seed, max_hash, m, track, items)).unwrap()),
         ("js", true) => Reg::T(serde_json::from_str(&sketch_json(num, ksize, seed, max_hash, m, track, items)).unwrap()),
@@ -189,7 +191,7 @@ fn build_reg(tree: bool, ctor: &str, max_hash: u64, num: u32, ksize: u32, m: &st
                 .max_hash(max_hash)
                 .mins(items.iter().map(|p| p.0).collect::<BTreeSet<u64>>())
                 .abunds(if track { Some(items.iter().cloned().collect::<BTreeMap<u64, u64>>()) } else { None })
-                .current_max(items.iter().map(|p| p.0).max().unwrap_or(0))
+                .current_max(cm.unwrap_or_else(|| items.iter().map(|p| p.0).max().unwrap_or(0)))
                 .build(),
         ),
         _ => return None,
@@ -283,7 +285,7 @@ fn step(st: &mut St, ws: &[&str]) -> String {
             "ok".into()
         }
         // build R ctor max_hash num ksize mol seed track items
-        "build" => match build_reg(st.tree, ws[2], n(3), n(4) as u32, n(5) as u32, ws[6], n(7), ws[8] == "1", &parse_pairs(ws[9])) {
+        "build" => match build_reg(st.tree, ws[2], n(3), n(4) as u32, n(5) as u32, ws[6], n(7), ws[8] == "1", &parse_pairs(ws[9]), ws.get(10).map(|w| w.parse().unwrap())) {
             Some(r) => {
                 let s = obs(&r);
                 st.regs.insert(n(1), r);
@@ -840,13 +842,20 @@ fn make(o: &mut Out, r: &mut Rng, tree: bool, reg: u64, tmp: u64, s: u64, num: u
     let ready = if r.chance(1, 3) { content(it, mh, num) } else { None };
     match ready {
         Some(mut c) => {
-            let ctor = match r.below(4) {
+            // an explicitly given `current_max` is taken as it is: for a sketch with a ceiling the code
+            // never reads it, so a stale one (0, a hash in the middle, anything small) must not matter
+            let mut stale: Option<u64> = None;
+            let ctor = match r.below(5) {
                 0 if num == 0 || mh == 0 => "js",
-                // a pure num tree sketch with a stale cache refuses smaller hashes afterwards
-                // (corpus/C03/builder-stale-max.ops); the downsampling ops never add to such a sketch,
-                // but the pour ops do
                 1 => "bc",
-                _ if tree && mh == 0 => "bc",
+                2 | 3 if tree && mh != 0 && !c.is_empty() => {
+                    stale = Some(match r.below(3) {
+                        0 => 0,
+                        1 => c[r.below(c.len() as u64) as usize].0 / 2,
+                        _ => c[0].0,
+                    });
+                    "bc"
+                }
                 _ => "b",
             };
             if ctor == "js" {
@@ -855,7 +864,14 @@ fn make(o: &mut Out, r: &mut Rng, tree: bool, reg: u64, tmp: u64, s: u64, num: u
                     c.swap(i, j);
                 }
             }
-            o.op(&format!("build {} {} {} {} 21 dna 42 {} {}", reg, ctor, mh, num, track as u8, show_items(&c)));
+            o.op(&format!(
+                "build {} {} {} {} 21 dna 42 {} {}{}",
+                reg, ctor, mh, num, track as u8, show_items(&c),
+                match stale {
+                    Some(x) => format!(" {}", x),
+                    None => String::new(),
+                }
+            ));
         }
         None => {
             o.op(&new_line(reg, s, num, track));
@@ -1088,7 +1104,7 @@ fn gen(a: &Args) {
                 let mut c14 = content(&ia, 0, 0).unwrap();
                 c14.truncate(5);
                 if r.chance(1, 2) {
-                    o.op(&format!("build 14 {} 0 5 21 dna 42 {} {}", if r.chance(1, 3) { "js" } else { "bc" }, ta as u8, show_items(&c14)));
+                    o.op(&format!("build 14 {} 0 5 21 dna 42 {} {}", *r.pick(&["js", "bc", "b"]), ta as u8, show_items(&c14)));
                 } else {
                     o.op(&new_line(14, 0, 5, ta));
                     o.op(&format!("add 14 {}", show_items(&ia)));
